@@ -6,50 +6,61 @@ import vlib
 
 PROC = "node/pkg/processor/processor.go"
 CLEAN = "node/pkg/processor/cleanup.go"
-DUR = {"time.Second": 10**9, "time.Minute": 60 * 10**9, "time.Hour": 3600 * 10**9, "time.Millisecond": 10**6}
+HOUR = 3600 * 10**9
+MIN5 = 5 * 60 * 10**9
 
 
-def dur(expr):
-    m = re.match(r"^\s*(?:(\d+)\s*\*\s*)?(time\.\w+)(?:\s*\*\s*(\d+))?\s*$", expr)
-    if not m or m.group(2) not in DUR:
-        return None
-    k = int(m.group(1) or m.group(3) or 1)
-    return k * DUR[m.group(2)]
+def strip_comments(code):
+    code = re.sub(r"/\*.*?\*/", "", code, flags=re.S)
+    return re.sub(r"//[^\n]*", "", code)
 
 
 def gen(ctx):
-    src = vlib.read(os.path.join(vlib.REPO, PROC))
-    m = re.search(r"func \(p \*Processor\) Run\(ctx context\.Context\) error \{(.*?)\n\}\n", src, re.S)
+    # both files with every integer-constant expression folded (tools/gofold), comments removed: named constants, inline
+    # literals and `30 * time.Second` style products all read alike
+    src = strip_comments(vlib.gofold(PROC))
+    m = re.search(r"func \((\w+) \*Processor\) Run\((\w+) context\.Context\) error \{(.*?)\n\}\n", src, re.S)
     if not m:
         ctx.gen_fail("Proc", "Processor.Run not found in " + PROC); return None
-    body = m.group(1)
+    p, cx, body = m.group(1), m.group(2), m.group(3)
     arms = []
-    for am in re.finditer(r"case\s+(?:(\w+)\s*:=\s*)?(?:(p\.gs)\s*=\s*)?<-\s*([\w\.\(\)]+):\s*\n(.*?)(?=\n\t\tcase |\n\t\t\}|\Z)", body, re.S):
+    for am in re.finditer(r"case\s+(?:(\w+)\s*:=\s*)?(?:(%s\.gs)\s*=\s*)?<-\s*([\w\.\(\)]+):\s*\n(.*?)(?=\n\t\tcase |\n\t\t\}|\Z)" % p, body, re.S):
         var, assign, chan, code = am.group(1), am.group(2), am.group(3), am.group(4)
-        call = re.search(r"p\.(handle\w+)\(ctx(?:,\s*(\w+))?\)", code)
-        if chan == "ctx.Done()":
-            arms.append((chan, "return"))
+        chan = re.sub(r"^%s\." % p, "p.", chan)
+        call = re.search(r"%s\.(handle\w+)\(%s(?:,\s*(\w+))?\)" % (p, cx), code)
+        if chan == cx + ".Done()":
+            arms.append(("ctx.Done()", "return"))
         elif assign:
-            arms.append((chan, "set:" + ("gst" if "p.gst.Set(p.gs)" in code else "nogst")))
+            arms.append((chan, "set:" + ("gst" if re.search(r"%s\.gst\.Set\(%s\.gs\)" % (p, p), code) else "nogst")))
         elif call:
             arg = call.group(2) or ""
             arms.append((chan, call.group(1) + ("" if (arg == (var or "")) else ":arg-mismatch")))
         else:
             arms.append((chan, "other"))
-    tm = re.search(r"p\.cleanup = time\.NewTicker\(([^)]+)\)", body)
-    tick = dur(tm.group(1)) if tm else None
-    cl = vlib.read(os.path.join(vlib.REPO, CLEAN))
+    tm = re.search(r"%s\.cleanup = time\.NewTicker\((\d+)\)" % p, body)
+    tick = int(tm.group(1)) if tm else None
+
+    cl = strip_comments(vlib.gofold(CLEAN))
     consts = {}
-    for name in ("settlementTime", "retryTime"):
-        cm = re.search(r"\b%s\s*=\s*([^\n]+)" % name, cl)
-        consts[name] = dur(cm.group(1)) if cm else None
-    bm = re.search(r"s\.ourMsg != nil && s\.retryCount >= (\d+)[^)]*\) \|\| \(s\.ourMsg == nil && s\.retryCount >= (\d+)", cl)
+    lm = re.search(r"for (\w+), (\w+) := range \w+\.state\.vaaSignatures \{\s*(\w+) := time\.Since\(\2\.firstObserved\)", cl)
+    if not lm:
+        ctx.gen_fail("Proc", "cleanup loop header (`for hash, s := range p.state.vaaSignatures { delta := time.Since(s.firstObserved)`) not found in " + CLEAN)
+        return None
+    S, D = lm.group(2), lm.group(3)
+    sub = lambda pat: pat.replace("S.", S + ".").replace("DELTA", D)
+    late = re.search(sub(r"if !S.submitted && S.ourVAA != nil && DELTA > (\d+) \{"), cl)
+    settle = re.search(sub(r"case !S.settled && DELTA > (\d+):"), cl)
+    hour = re.search(sub(r"case S.submitted && (?:DELTA\.Hours\(\) >= 1|DELTA >= %d):" % HOUR), cl)
+    five = re.search(sub(r"case !S.submitted && (?:DELTA\.Minutes\(\) >= 5|DELTA >= %d) && time\.Since\(S.lastRetry\) >= (\d+):" % MIN5), cl)
+    bm = re.search(sub(r"case !S.submitted && \(\(S.ourMsg != nil && S.retryCount >= (\d+)\s*\) \|\| \(S.ourMsg == nil && S.retryCount >= (\d+)\s*\)\):"), cl)
+    consts["settlementTime"] = int(settle.group(1)) if settle else None
+    consts["retryTime"] = int(five.group(1)) if five else None
     consts["maxRetries"] = int(bm.group(1)) if bm else None
     consts["nilRetries"] = int(bm.group(2)) if bm else None
-    consts["hourRule"] = 1 if re.search(r"case s\.submitted && delta\.Hours\(\) >= 1:", cl) else 0
-    consts["fiveMinRule"] = 1 if re.search(r"case !s\.submitted && delta\.Minutes\(\) >= 5 && time\.Since\(s\.lastRetry\) >= retryTime:", cl) else 0
-    consts["settleRule"] = 1 if re.search(r"case !s\.settled && delta > settlementTime:", cl) else 0
-    consts["lateRule"] = 1 if re.search(r"if !s\.submitted && s\.ourVAA != nil && delta > settlementTime \{", cl) else 0
+    consts["hourRule"] = 1 if hour else 0
+    consts["fiveMinRule"] = 1 if five else 0
+    consts["settleRule"] = 1 if settle else 0
+    consts["lateRule"] = 1 if (late and settle and late.group(1) == settle.group(1)) else 0
     if tick is None or any(v is None for v in consts.values()) or not arms:
         ctx.gen_fail("Proc", "could not extract Run's select arms / cleanup thresholds: tick=%s consts=%s arms=%s" % (tick, consts, arms))
         return None
